@@ -9,6 +9,11 @@ pub assume_specification<T, U, D: FnOnce() -> U, F: FnOnce(T) -> U>[ Option::<T>
 pub assume_specification<T, E, U, D: FnOnce(E) -> U, F: FnOnce(T) -> U>[ Result::<T, E>::map_or_else ](o: Result<T, E>, default: D, f: F) -> (r: U)
     requires o is Ok ==> f.requires((o->Ok_0,)), o is Err ==> default.requires((o->Err_0,)),
     ensures o is Err ==> default.ensures((o->Err_0,), r), o is Ok ==> f.ensures((o->Ok_0,), r);
+pub assume_specification<F: FnOnce() -> core::cmp::Ordering>[ core::cmp::Ordering::then_with ](o: core::cmp::Ordering, f: F) -> (r: core::cmp::Ordering)
+    requires o == core::cmp::Ordering::Equal ==> f.requires(()),
+    ensures o != core::cmp::Ordering::Equal ==> r == o, o == core::cmp::Ordering::Equal ==> f.ensures((), r);
+pub assume_specification[ core::cmp::Ordering::then ](o: core::cmp::Ordering, other: core::cmp::Ordering) -> (r: core::cmp::Ordering)
+    ensures r == (if o != core::cmp::Ordering::Equal { o } else { other });
 pub assume_specification<T, P: FnOnce(&T) -> bool>[ Option::<T>::filter ](o: Option<T>, p: P) -> (r: Option<T>)
     requires o is Some ==> p.requires((&o->Some_0,)),
     ensures o is None ==> r is None, o is Some ==> (r is None || r == o), o is Some ==> (p.ensures((&o->Some_0,), true) ==> r == o);
